@@ -311,8 +311,14 @@ func (t *threadState) join(in *Interp, fr *frame) {
 	}
 	t.tick()
 	t.running = true
+	aliasReadHook = func(cells []Value) {
+		for i := range cells {
+			in.onRead(&cells[i])
+		}
+	}
 	defer func() {
 		t.running = false
+		aliasReadHook = nil
 		// make sure no host goroutine stays blocked
 		t.killed = true
 		for _, g := range t.threads[1:] {
